@@ -294,7 +294,7 @@ RULES = {
 
 
 def run(tier, seed):
-    per_fn = 120 if tier == "quick" else 4000
+    per_fn = 90 if tier == "quick" else 4000
     cases = [gen_case(seed, fn, i) for fn in FUNCS for i in range(per_fn)]
     res = _par.pmap(_work, cases)
     cols = {k: _par.Collector(k, RULES[k], "7 functions x %d rational points, parameters in [1/12, 60], 60-digit evaluation" % per_fn)
